@@ -16,3 +16,39 @@ pub assume_specification<T: PartialEq, E: PartialEq>[ <Result<T, E> as PartialEq
         _ => false,
     });
 //@trusted assume_specification <Result<T,E> as PartialEq>::eq is variant-wise equality
+pub assume_specification[ String::len ](s: &String) -> (r: usize)
+    ensures r as int == blen(s@);
+pub assume_specification[ String::with_capacity ](n: usize) -> (r: String)
+    ensures r@ == Seq::<char>::empty();
+/// std: "Panics if new_len does not lie on a char boundary"; no effect if new_len >= len
+pub assume_specification[ String::truncate ](s: &mut String, new_len: usize)
+    requires new_len as int >= blen(old(s)@)
+        || exists|k: int| 0 <= k <= old(s)@.len() && blen(old(s)@.take(k)) == new_len as int,
+    ensures new_len as int >= blen(old(s)@) ==> final(s)@ == old(s)@,
+        forall|k: int| 0 <= k <= old(s)@.len() && blen(old(s)@.take(k)) == new_len as int ==> final(s)@ == old(s)@.take(k);
+//@trusted assume_specification String::len == UTF-8 length of the view; String::with_capacity is empty; String::truncate keeps the char prefix of that byte length (panics off a boundary)
+/// AsRef<str>: a spec-level name for what `as_ref()` returns (external trait specification)
+#[verifier::external_trait_specification]
+#[verifier::external_trait_extension(AsRefSpec via AsRefSpecImpl)]
+pub trait ExAsRef<T: PointeeSized>: PointeeSized {
+    type ExternalTraitSpecificationFor: AsRef<T>;
+    spec fn as_ref_spec(&self) -> &T;
+    fn as_ref(&self) -> (r: &T)
+        ensures r == self.as_ref_spec();
+}
+impl AsRefSpecImpl<str> for str {
+    open spec fn as_ref_spec(&self) -> &str { self }
+}
+impl<T: PointeeSized + AsRef<U>, U: PointeeSized> AsRefSpecImpl<U> for &T {
+    open spec fn as_ref_spec(&self) -> &U { (**self).as_ref_spec() }
+}
+//@trusted std: AsRef<str> for str / &str returns the string itself (AsRefSpecImpl blocks)
+pub assume_specification<T: Ord>[ std::cmp::max::<T> ](a: T, b: T) -> (r: T)
+    ensures r == a || r == b;
+//@trusted assume_specification std::cmp::max::<usize>
+//@if rustc_nightly
+pub assume_specification<T, A: std::alloc::Allocator>[ Vec::<T, A>::push_within_capacity ](v: &mut Vec<T, A>, value: T) -> (r: Result<&mut T, T>)
+    ensures match r { Ok(_) => final(v)@ == old(v)@.push(value), Err(x) => final(v)@ == old(v)@ && x == value };
+pub assume_specification<T, A: std::alloc::Allocator>[ Vec::<T, A>::capacity ](v: &Vec<T, A>) -> (r: usize);
+//@trusted assume_specification Vec::push_within_capacity pushes or returns the value unchanged (nightly path)
+//@endif
